@@ -8,6 +8,7 @@ from .c11 import select_sites
 DISJUNCTIVE = ("select", "select_all", "select_ok", "race", "try_select", "select_biased")
 CONJUNCTIVE = ("join", "join3", "try_join", "join_all")
 REBOOT_INTERVAL_SECS = 1800  # oracle: "its 30-minute timer"
+RB_CONST = "CHECK_REBOOT_ALLOWED_INTERVAL"   # name of the constant as found at its use (set by run)
 
 
 def no_blocks(s):
@@ -190,13 +191,28 @@ def run(F, R):
 
     # ---------------------------------------------------------------- R4 reboot wait
     R.rule("C12-R4", "while waiting to reboot: reboot_allowed is asked on entry, when the 30-minute timer fires, or for an on-demand request; pings only when the schedule timer fires; a fired timer is re-armed with a fresh future of the same origin")
-    kv = c.consts.get("state_machine::CHECK_REBOOT_ALLOWED_INTERVAL")
+    rw = [(cx, sn, info) for (cx, sn, info) in sels if cx is not S.root]
+    # the re-check interval: the named constant the reboot wait hands to wait_for (whatever it is called, wherever it lives)
+    global RB_CONST
+    RB_CONST = "CHECK_REBOOT_ALLOWED_INTERVAL"
+    kv = None
+    for (cx_, sn_, info_) in rw:
+        for a_ in info_.values():
+            for m_ in re.finditer(r"wait_for\([^()]*?, ((?:[A-Za-z_][A-Za-z_0-9]*::)*[A-Z][A-Z0-9_]*)\)", a_["render"]):
+                ks_ = [k_ for k_ in c.consts if k_ == m_.group(1) or k_.endswith("::" + m_.group(1)) or m_.group(1).endswith("::" + k_.split("::")[-1])]
+                if ks_ and kv is None:
+                    RB_CONST = m_.group(1).split("::")[-1]
+                    kv = c.consts[ks_[0]]
+    if kv is None:
+        kv = c.consts.get("state_machine::CHECK_REBOOT_ALLOWED_INTERVAL")
     secs = None
     if kv:
         m = re.search(r"secs:\s*(\d+)", kv.get("s", ""))
         secs = int(m.group(1)) if m else None
-    R.check("C12-R4", "interval-constant", secs == REBOOT_INTERVAL_SECS, "CHECK_REBOOT_ALLOWED_INTERVAL = %s s" % secs, "the reboot re-check interval is %s s, not 1800 s" % secs)
-    rw = [(cx, sn, info) for (cx, sn, info) in sels if cx is not S.root]
+    if kv is None:
+        R.inconclusive("C12-R4", "interval-constant", "the reboot wait does not arm a timer with a named constant")
+    else:
+        R.check("C12-R4", "interval-constant", secs == REBOOT_INTERVAL_SECS, "%s = %s s" % (RB_CONST, secs), "the reboot re-check interval is %s s, not 1800 s" % secs)
     if R.floor("C12-R4", "reboot-wait select", len(rw), 1):
         cx, sn, info = rw[0]
         bv = cx.bv
@@ -213,7 +229,7 @@ def run(F, R):
         excl = {k: arm_nodes[k] - set().union(*[arm_nodes[j] for j in arm_nodes if j != k]) for k in arm_nodes}
         by_kind = {}
         for k, a in info.items():
-            origin = "control" if a["kind"] == "control" else ("reboot-timer" if "CHECK_REBOOT_ALLOWED_INTERVAL" in a["render"] else ("schedule-timer" if "make_wait" in a["render"] or (mv is not None and W.by_id[mv.body["parent"]]["item"] in a["render"]) else "other:" + a["render"][:40]))
+            origin = "control" if a["kind"] == "control" else ("reboot-timer" if RB_CONST in a["render"] else ("schedule-timer" if "make_wait" in a["render"] or (mv is not None and W.by_id[mv.body["parent"]]["item"] in a["render"]) else "other:" + a["render"][:40]))
             by_kind[k] = origin
         R.check("C12-R4", "arm-origins", sorted(by_kind.values()) == ["control", "reboot-timer", "schedule-timer"], str(by_kind), "reboot-wait arms poll %s" % by_kind)
         for x in ra:
@@ -252,8 +268,8 @@ def run(F, R):
 
 def _origin_core(r):
     """Normalised origin of a timer future: which Timer call with which argument family."""
-    if "CHECK_REBOOT_ALLOWED_INTERVAL" in r and "wait_for(" in r:
-        return "fuse(wait_for(CHECK_REBOOT_ALLOWED_INTERVAL))" if "fuse(" in r else "wait_for(CHECK_REBOOT_ALLOWED_INTERVAL)"
+    if RB_CONST in r and "wait_for(" in r:
+        return "fuse(wait_for(%s))" % RB_CONST if "fuse(" in r else "wait_for(%s)" % RB_CONST
     m = re.search(r"(\w*make_wait\w*)\((?:[^,]+), poll\((\w+)\(", r)
     if m:
         return "%s(%s())" % (m.group(1), m.group(2))
